@@ -476,7 +476,7 @@ impl FixtureDatabase {
     ) -> HashSet<String> {
         let mut imported_fixtures = HashSet::new();
 
-        let Some(parsed) = self.get_parsed_ast(canonical_path, content) else {
+        let Some(parsed) = self.get_parsed_ast_or_last_valid(canonical_path, content) else {
             return imported_fixtures;
         };
 
@@ -581,7 +581,7 @@ impl FixtureDatabase {
         }
 
         let content = self.get_file_content(&canonical_path)?;
-        let parsed = self.get_parsed_ast(&canonical_path, &content)?;
+        let parsed = self.get_parsed_ast_or_last_valid(&canonical_path, &content)?;
         let line_index = self.get_line_index(&canonical_path, &content);
         let rustpython_parser::ast::Mod::Module(module) = parsed.as_ref() else {
             return None;
